@@ -14,7 +14,7 @@
    Routing, replies and errors are other packages' business (C03-C09); here the
    output is what a monitor is shown OF THE SENDER'S OWN MESSAGE, plus the
    NameOwnerChanged that announces the sender's arrival / departure. *)
-From DV Require Import Lib.Base Gen.Tables Wire.Message Auth.Types Gen.AuthTables Auth.Server Robust.Bus.
+From DV Require Import Lib.Base Gen.Tables Wire.Message Auth.Types Gen.AuthTables Auth.Server Robust.Bus Robust.Env.
 Local Open Scope N_scope.
 
 (* ---- header accessors (dbus_message_get_type / _destination / ...) ---------- *)
@@ -111,3 +111,8 @@ Definition mini_init : state auth unit := init tt.
 (* what the OCaml driver calls: per-event outputs of a history *)
 Definition mini_run (uid : N) (cf : cfg) (h : list Bus.event) : list (list (out mout)) :=
   snd (run_steps (mini_ops uid) cf mini_init h).
+
+(* the same through the environment of Robust/Env.v (client-side script in, scheduled
+   bus-side events with their outputs out) *)
+Definition mini_env_run (uid : N) (cf : cfg) (h : list cevent) : list (list (Bus.event * list (out mout))) :=
+  snd (env_run (mini_ops uid) cf (mkE mini_init []) h).
